@@ -64,6 +64,10 @@ CLAIMED["C11"] = ("Unbounded proof, for every cache content, capacity and operat
   "Trusted / assumed: key injectivity up to the verdict (axioms key_complete/key_sound: SHA-256 collision resistance, the fixed framing, and a verdict that depends only on claimed signers, signature bytes and message), writeSigners (closure through IDSet.ForEach) and evict (container/list) are trusted contracts, Base.Sign's own-signature-verifies, mutex atomicity. Not decided: BatchVerify's key (hash.Hash streaming digest and sorted map iteration are not modelled), completeness direction (an error is returned only if the wrapped implementation returned one), eviction never making a later verification fail, BLS.",
   "contract-based deductive verification: WP over go/ssa + SMT (govc), abstract byte-string model", "DESIGN.md 7.2 C11")
 
+CLAIMED["C12"] = ("Unbounded proof, for every protocol object (any number of signers, any views/ids, every optional part present or absent, ECDSA and EdDSA multi-signatures), that conversion to the wire form and back preserves it: each *ToProto function is proved to put exactly the object's fields into the message (signers and signature bytes in the signature's own order, hashes as their 32 bytes, views, proposer, batch, the timestamp's seconds and nanoseconds, presence of each optional part), each *FromProto function is proved to read exactly those fields back, and for signature, partial certificate, quorum certificate, timeout certificate, block, aggregate QC, sync info, timeout message and proposal the composition decode(encode(x)) is proved (as a contract over the two contracts, on harness functions compiled only under the verif tag) to yield the same scheme, the same signers in the same order, the same signature bytes (hence the same Participants() and ToBytes()), the same hashes, views, proposer, batch and timestamp instant, with every optional part present exactly when it was.",
+  "Trusted / assumed: hashes and bytes-to-sign are functions of these fields (Block.ToBytes, QuorumCert.ToBytes etc. are trusted contracts, not proved from their code), timestamppb.New/AsTime carry exactly (seconds, nanoseconds), protobuf marshal/unmarshal itself (library), byte strings are compared through an uninterpreted content function, BLS: only presence and the participants bitfield path (the G2 point encoding is the kilic library's). Not decided: that no entry of an aggregate QC's per-replica QC map is lost (map iteration is modelled without a visited set; every entry that is decoded is faithful), the hash check on fetched blocks (RequestBlockQF), clientpb batch marshalling, verification verdict after the round trip (follows from same signers/bytes/content given C02's contracts, not stated separately).",
+  "contract-based deductive verification: WP over go/ssa + SMT (govc); round-trip compositions as contracts over contracts", "DESIGN.md 7.2 C12")
+
 NA = {
  "C01": "cross-replica agreement over all schedules and Byzantine behaviours is a protocol-level inductive invariant over a distributed history; no contract on a function or object of one process can state it (DESIGN.md 3 C01)",
  "C05": "liveness / bounded progress under eventual synchrony is a property of whole executions of all replicas; partial-correctness contracts cannot state it (DESIGN.md 3 C05)",
